@@ -359,14 +359,15 @@ type Config struct {
 
 // History is everything a run depends on. It is the replay file.
 type History struct {
-	Prop   string  `json:"prop"`
-	Seed   int64   `json:"seed"`
-	Run    int64   `json:"run"`
-	Class  string  `json:"class,omitempty"`
-	Cfg    Config  `json:"cfg"`
-	Funcs  []Func  `json:"funcs"`
-	Ops    []Op    `json:"ops"`
-	Faults []Fault `json:"faults,omitempty"`
+	Prop   string     `json:"prop"`
+	Seed   int64      `json:"seed"`
+	Run    int64      `json:"run"`
+	Class  string     `json:"class,omitempty"`
+	Cfg    Config     `json:"cfg"`
+	Funcs  []Func     `json:"funcs"`
+	Ops    []Op       `json:"ops"`
+	Faults []Fault    `json:"faults,omitempty"`
+	Graph  *GraphCase `json:"graph,omitempty"` // C05: explicit digraph for the cycle detector (no ops)
 }
 
 func (h *History) Clone() *History {
@@ -390,6 +391,9 @@ func (h *History) NumScopes() int {
 
 func (h *History) Describe() []string {
 	var out []string
+	if h.Graph != nil {
+		out = append(out, fmt.Sprintf("IsAcyclic on digraph n=%d adjacency=%v", h.Graph.N, h.Graph.Edges))
+	}
 	sc := 1
 	for i, o := range h.Ops {
 		s := fmt.Sprintf("%2d s%d %s", i, o.Scope, o.Kind)
